@@ -50,6 +50,8 @@ impl<'c, Q: Queue> Interp<'c, Q> {
             Op::EqProbe => self.do_eq_probe(),
             Op::IntoVecRebuild => self.do_into_vec(),
             Op::DeserSeq { pairs, carrier, cross } => self.do_deser_seq(pairs, *carrier, *cross),
+            // outside the fault runner the wrapped operation simply runs
+            Op::WithFault { op, .. } => self.apply(op),
         }
     }
 
